@@ -632,7 +632,7 @@ def cycles(pid, tier, replay):
         return engine.engine_replay(pid, replay)
     fams = _fams([dict(fam="cyc", K=6, CH=1), dict(fam="sched", K=3, CH=1), dict(fam="dyn", K=1, CH=2)],
                  [dict(fam="cyc", K=60, CH=1), dict(fam="sched", K=20, CH=1), dict(fam="dyn", K=1, CH=10), dict(fam="rand", K=40, CH=3)], tier)
-    return engine.engine_check(pid, fams, tier, maxruns=8 if tier == "quick" else 32, props=["C17"])
+    return engine.engine_check(pid, fams, tier, maxruns=8 if tier == "quick" else 32, props=["C17"], cyclemodel=True)
 
 
 @reg("C19")
